@@ -51,6 +51,16 @@ func checkC16RoundTrip(c C16RoundTrip) error {
 	if r.Failed() {
 		return fmt.Errorf("serialize failed: %v", r)
 	}
+	// another template of the same size is serialised before the first result is used: the
+	// bytes handed out for the first must be the caller's own
+	other := &twig.CompiledTemplate{Name: "other", Source: strings.Repeat("Z", len(in.Source)), LastModified: 1, CompileTime: 2, AST: bytes.Repeat([]byte{0xEE}, len(in.AST))}
+	keep := append([]byte(nil), data...)
+	if r := guard(func() (string, error) { _, err := twig.SerializeCompiledTemplate(other); return "", err }); r.Failed() {
+		return fmt.Errorf("serialize of a second template failed: %v", r)
+	}
+	if !bytes.Equal(keep, data) {
+		return fmt.Errorf("the bytes returned by SerializeCompiledTemplate (%d bytes) changed when another template was serialised afterwards", len(data))
+	}
 	var out *twig.CompiledTemplate
 	r = guard(func() (string, error) {
 		o, err := twig.DeserializeCompiledTemplate(data)
@@ -81,7 +91,7 @@ func trunc(s string) string {
 }
 
 func TestC16RoundTrip(t *testing.T) {
-	r := NewRec(t, "C16", "CompiledTemplate values with arbitrary name/source bytes (empty, binary, invalid UTF-8, lengths at 0/1/255/256/65535/65536/1 MB, thorough 32 MB), arbitrary int64 timestamps (negative, min, max) and arbitrary AST bytes; oracle: Deserialize(Serialize(c)) == c field-wise; non-trivial = source length >= 256 or non-UTF-8 bytes or extreme timestamps; distinct by value")
+	r := NewRec(t, "C16", "CompiledTemplate values with arbitrary name/source bytes (empty, binary, invalid UTF-8, lengths at 0/1/255/256/65535/65536/1 MB, thorough 32 MB), arbitrary int64 timestamps (negative, min, max) and arbitrary AST bytes; oracle: Deserialize(Serialize(c)) == c field-wise, and the serialised bytes stay as they are while another template of the same size is serialised; non-trivial = source length >= 256 or non-UTF-8 bytes or extreme timestamps; distinct by value")
 	defer r.Flush()
 	rapid.Check(t, func(rt *rapid.T) {
 		unit := func(label string) BStr {
@@ -173,20 +183,45 @@ func checkC16Render(c C16RenderCase) error {
 			return fmt.Errorf("compiling %q failed: %v; templates:%s", name, r, showSources(srcs))
 		}
 	}
-	for variant := 0; variant < 4; variant++ {
+	// the same set compiled from an engine on which the templates were registered (they carry
+	// the registration time as their timestamp) instead of loaded
+	blobsReg := map[string][]byte{}
+	eR := twig.New()
+	NewSpies().Install(eR)
+	eR.EnableSandbox(allowAll{})
+	for name, src := range srcs {
+		eR.RegisterString(name, src)
+	}
+	for name := range blobs {
+		if ct, err := eR.CompileTemplate(name); err == nil {
+			if b, err := twig.SerializeCompiledTemplate(ct); err == nil {
+				blobsReg[name] = b
+			}
+		}
+	}
+	for variant := 0; variant < 5; variant++ {
 		eB := twig.New()
 		NewSpies().Install(eB)
 		eB.EnableSandbox(allowAll{})
 		what := "second engine"
-		if variant == 3 {
-			// the target engine already holds other (newer) templates under the same names:
-			// registering the compiled form must replace them
+		use := blobs
+		if variant == 3 || variant == 4 {
+			// the target engine already holds other templates under the same names (registered
+			// within the same second as the compiled ones): registering the compiled form must
+			// replace them
 			what = "second engine that already had templates under these names"
 			for name := range blobs {
 				eB.RegisterString(name, "STALE("+name+")")
 			}
+			if variant == 4 {
+				if len(blobsReg) != len(blobs) {
+					continue
+				}
+				use = blobsReg
+				what += " (compiled from registered templates)"
+			}
 		}
-		for name, b := range blobs {
+		for name, b := range use {
 			data := b
 			if variant == 2 {
 				// documented fallback: AST bytes that do not decode => the stored source is parsed
@@ -225,7 +260,7 @@ func checkC16Render(c C16RenderCase) error {
 }
 
 func TestC16Render(t *testing.T) {
-	r := NewRec(t, "C16", "template sets from the structural generators (control flow, inheritance, includes, macros in five call forms, apply/spaceless) compiled on engine A, serialised, loaded with LoadFromCompiledData on a fresh engine B (plain, with auto-reload, and with the AST bytes replaced by garbage) and rendered twice; oracle: identical to the source render on A and to the reference model; non-trivial = the set has >= 2 templates or the main template has >= 3 node kinds; distinct by source set")
+	r := NewRec(t, "C16", "template sets from the structural generators (control flow, inheritance, includes, macros in five call forms, apply/spaceless) compiled on engine A, serialised, loaded with LoadFromCompiledData on a fresh engine B (plain, with auto-reload, with the AST bytes replaced by garbage, and on engines that already hold other templates under the same names, compiled from loaded and from registered templates) and rendered twice; oracle: identical to the source render on A and to the reference model; non-trivial = the set has >= 2 templates or the main template has >= 3 node kinds; distinct by source set")
 	defer r.Flush()
 	rapid.Check(t, func(rt *rapid.T) {
 		sc, kind := genStructured(rt)
@@ -312,6 +347,27 @@ func checkC16File(c C16FileCase) error {
 	if err != nil || mt != st.ModTime().Unix() {
 		return fmt.Errorf("GetModifiedTime = %d, %v; file mtime %d", mt, err, st.ModTime().Unix())
 	}
+	// the file is rewritten from a different template of the same length (typically within
+	// the same second): the loader instance that read the old file must read the new one
+	src2 := strings.Replace(src, "{% if x %}y{% endif %}", "{% if x %}z{% endif %}", 1)
+	if src2 != src {
+		eA2 := newEngine(map[string]string{c.Name: src2})
+		if r := guard(func() (string, error) { return "", cl.SaveCompiled(eA2, c.Name) }); r.Failed() {
+			return fmt.Errorf("second SaveCompiled failed: %v", r)
+		}
+		for _, l := range []*twig.CompiledLoader{cl2, cl} {
+			var again string
+			if r := guard(func() (string, error) { s, err := l.Load(c.Name); again = s; return "", err }); r.Failed() {
+				return fmt.Errorf("CompiledLoader.Load after rewriting the file failed: %v", r)
+			}
+			if again != src2 {
+				return fmt.Errorf("after the compiled file was rewritten (same length, %d bytes) Load still returns the old source", len(src2))
+			}
+		}
+		if r := guard(func() (string, error) { return "", cl.SaveCompiled(eA, c.Name) }); r.Failed() {
+			return fmt.Errorf("third SaveCompiled failed: %v", r)
+		}
+	}
 	// LoadAll on a fresh engine
 	eB := twig.New()
 	if r := guard(func() (string, error) { return "", twig.NewCompiledLoader(dir).LoadAll(eB) }); r.Failed() {
@@ -325,7 +381,7 @@ func checkC16File(c C16FileCase) error {
 }
 
 func TestC16Files(t *testing.T) {
-	r := NewRec(t, "C16", "templates (text over all bytes + a print + an if, sizes up to 100 KB) saved with CompiledLoader.SaveCompiled and read back with Load / Exists / GetModifiedTime / LoadAll on a fresh engine; oracle: identical source and output; non-trivial = source >= 256 bytes or non-ASCII; distinct by (name, source)")
+	r := NewRec(t, "C16", "templates (text over all bytes + a print + an if, sizes up to 100 KB) saved with CompiledLoader.SaveCompiled and read back with Load / Exists / GetModifiedTime / LoadAll on a fresh engine, rewritten from a different template of the same length and read again by the same loader instance; oracle: identical source and output; non-trivial = source >= 256 bytes or non-ASCII; distinct by (name, source)")
 	defer r.Flush()
 	rapid.Check(t, func(rt *rapid.T) {
 		text, _ := fixTextBeforeTag(breakDelims(genText(rt, 40)))
